@@ -5,20 +5,20 @@
    effect log; the log is judged by the ledger (LedgerCore.apply_all); what the harness observes at rest
    (live items, slots of live item buffers, hygiene flag) is computed FROM THE LEDGER.  Definitions only. *)
 From Coq Require Import ZArith NArith List Bool Lia.
-From DS Require Import RunnerLib LedgerCore LedgerKll LedgerTup LedgerFi LedgerReq LedgerVo.
+From DS Require Import RunnerLib LedgerCore LedgerKll LedgerTup LedgerFi LedgerReq LedgerVo LedgerHll.
 Import ListNotations.
 Local Open Scope Z_scope.
 
-Inductive ost := OK (s : kll) | OT (s : tup) | OF (s : fim) | OQ (s : req) | OV (s : vo).
+Inductive ost := OK (s : kll) | OT (s : tup) | OF (s : fim) | OQ (s : req) | OV (s : vo) | OH (s : hsk).
 Record obj := { o_st : ost; o_led : ledger }.
 
-Definition kind_of (o : obj) : Z := match o_st o with OK _ => 0 | OT _ => 1 | OF _ => 2 | OQ _ => 3 | OV _ => 4 end.
+Definition kind_of (o : obj) : Z := match o_st o with OK _ => 0 | OT _ => 1 | OF _ => 2 | OQ _ => 3 | OV _ => 4 | OH s => if h_union s then 15 else 7 end.
 
 (* a REQ sketch keeps one ledger per compactor inside its state; the object's ledger is their concatenation *)
 Definition mkq (s : req) : obj := {| o_st := OQ s; o_led := q_ledger s |}.
 
 Definition retained (o : obj) : N :=
-  match o_st o with OK s => k_retained s | OT s => t_num s | OF s => f_num s | OQ s => q_retained s | OV s => v_retained s end.
+  match o_st o with OK s => k_retained s | OT s => t_num s | OF s => f_num s | OQ s => q_retained s | OV s => v_retained s | OH _ => 0%N end.
 Definition extras (o : obj) : N :=
   match o_st o with OK s => k_extras s | OQ s => q_extras s | _ => 0%N end.
 
@@ -38,6 +38,7 @@ Definition obj_copy (o : obj) : option (obj * bool) :=
            | OT s => match tup_copy s with Some (s', e) => Some (OT s', e) | None => None end
            | OF s => match fim_copy s with Some (s', e) => Some (OF s', e) | None => None end
            | OV s => match vo_copy s with Some (s', e) => Some (OV s', e) | None => None end
+           | OH s => let '(s', e) := hll_copy s in Some (OH s', e)
            | OQ _ => None
            end in
   match r with
@@ -51,14 +52,15 @@ Definition obj_destroy (o : obj) : bool :=
   match o_st o with
   | OQ s => req_destroy s
   | _ =>
-  let e := match o_st o with OK s => kll_destroy s | OT s => tup_destroy s | OF s => fim_destroy s | OV s => vo_destroy s | OQ _ => [] end in
+  let e := match o_st o with OK s => kll_destroy s | OT s => tup_destroy s | OF s => fim_destroy s | OV s => vo_destroy s | OH s => hll_destroy s | OQ _ => [] end in
   let '(L, bad) := judge [] (o_led o) e in
   bad || negb (is_nil L)
   end.
 
 Definition obj_moved_from (o : obj) : obj :=
   {| o_st := match o_st o with OK s => OK (kll_moved_from s) | OT s => OT (tup_moved_from s) | OF s => OF (fim_moved_from s)
-                             | OQ s => OQ (req_moved_from s) | OV s => OV (vo_moved_from s) end;
+                             | OQ s => OQ (req_moved_from s) | OV s => OV (vo_moved_from s)
+                             | OH s => OH (hll_moved_from s) end;
      o_led := [] |}.
 
 Inductive ures := UDone (o : obj) (bad : bool) | URefused (o : obj) (bad : bool).
@@ -99,10 +101,17 @@ Definition obj_update (o : obj) (v w : Z) (e : line) : ures :=
       | Some (s', es) => let '(L, bad) := judge [] (o_led o) es in UDone {| o_st := OV s'; o_led := L |} bad
       | None => URefused o false
       end
+  | OH s =>
+      match e with
+      | m :: k :: t :: c :: a :: _ =>
+          let '(s', es) := hll_reshape s (map zN [m; k; t; c; a]) in
+          let '(L, bad) := judge [] (o_led o) es in UDone {| o_st := OH s'; o_led := L |} bad
+      | _ => URefused o false
+      end
   end.
 
 (* merge of [s] into [r] (by reference or by move) *)
-Definition obj_merge (r s : obj) : option ures :=
+Definition obj_merge (r s : obj) (e : line) : option ures :=
   match o_st r, o_st s with
   | OK a, OK b =>
       let '(a', es, oc) := kll_merge a b in
@@ -114,6 +123,15 @@ Definition obj_merge (r s : obj) : option ures :=
       let '(L, bad) := judge (o_led s) (o_led r) es in
       let o' := {| o_st := OF a'; o_led := L |} in
       Some (if ok then UDone o' bad else URefused o' (bad || abort))
+  | OH a, OH b =>     (* hll_union::update(sketch): the gadget takes the shape the environment reports *)
+      if h_union a && negb (h_union b) then
+        match e with
+        | m :: k :: t :: c :: x :: _ =>
+            let '(a', es) := hll_reshape a (map zN [m; k; t; c; x]) in
+            let '(L, bad) := judge (o_led s) (o_led r) es in Some (UDone {| o_st := OH a'; o_led := L |} bad)
+        | _ => None
+        end
+      else None
   | OQ a, OQ b =>
       match req_merge a b with
       | Some (a', bad) => Some (UDone (mkq a') bad)
@@ -122,8 +140,13 @@ Definition obj_merge (r s : obj) : option ures :=
   | _, _ => None
   end.
 
-Definition obj_reset (o : obj) : option (obj * bool) :=
+Definition obj_reset (o : obj) (e : line) : option (obj * bool) :=
   match o_st o with
+  | OH s => match e with
+            | m :: k :: t :: c :: a :: _ =>
+                let '(s', es) := hll_reshape s (map zN [m; k; t; c; a]) in
+                let '(L, bad) := judge [] (o_led o) es in Some ({| o_st := OH s'; o_led := L |}, bad)
+            | _ => None end
   | OV s => match vo_reset s with
             | Some (s', es) => let '(L, bad) := judge [] (o_led o) es in Some ({| o_st := OV s'; o_led := L |}, bad)
             | None => None end
@@ -154,6 +177,27 @@ Definition obj_new (kind p1 p2 : Z) : option (obj * bool) :=
   match r with
   | None => None
   | Some (st, e) => let '(L, bad) := judge [] [] e in Some ({| o_st := st; o_led := L |}, bad)
+  end.
+
+(* HLL sketch / union: six sizeof values, then the shape of the fresh impl *)
+Definition obj_new_hll (union : bool) (p1 p2 : Z) (e : line) : option (obj * bool) :=
+  if (p1 <? 4) || (21 <? p1) || (p2 <? 0) || (2 <? p2) then None else
+  match e with
+  | s0 :: s1 :: s2 :: s3 :: s4 :: s5 :: m :: k :: t :: c :: a :: _ =>
+      let '(s, es) := hll_build union (map zN [s0; s1; s2; s3; s4; s5]) (map zN [m; k; t; c; a]) in
+      let '(L, bad) := judge [] [] es in Some ({| o_st := OH s; o_led := L |}, bad)
+  | _ => None
+  end.
+
+(* hll_union::get_result(type): a fresh sketch with the shape the environment reports *)
+Definition obj_result (u : obj) (e : line) : option (obj * bool) :=
+  match o_st u, e with
+  | OH s, m :: k :: t :: c :: a :: _ =>
+      if h_union s then
+        let '(s', es) := hll_build false (h_tab s) (map zN [m; k; t; c; a]) in
+        let '(L, bad) := judge (o_led u) [] es in Some ({| o_st := OH s'; o_led := L |}, bad)
+      else None
+  | _, _ => None
   end.
 
 (* REQ: the table of section sizes comes with the environment line *)
@@ -216,7 +260,8 @@ Definition arg (l : line) (i : nat) : Z := nth i l 0.
 Definition op_new (rs : regs) (a1 a2 a3 a4 : Z) (e : line) : regs * outline :=   (* new r kind p1 p2 *)
       match reg_get rs a1 with
       | Some _ => refuse rs false
-      | None => match (if a2 =? 3 then obj_new_req a3 a4 e else obj_new a2 a3 a4) with
+      | None => match (if a2 =? 3 then obj_new_req a3 a4 e else if a2 =? 7 then obj_new_hll false a3 a4 e
+                       else if a2 =? 15 then obj_new_hll true a3 0 e else obj_new a2 a3 a4) with
                 | Some (ob, bad) => done (reg_set rs a1 ob) a1 bad
                 | None => refuse rs false
                 end
@@ -281,7 +326,7 @@ Definition op_merge (rs : regs) (a1 a2 a3 a4 : Z) (e : line) : regs * outline :=
       match reg_get rs a1, reg_get rs a2 with
       | Some orr, Some os =>
           if a1 =? a2 then refuse rs false else
-          match obj_merge orr os with
+          match obj_merge orr os e with
           | Some (UDone o' bad) => done (reg_set rs a1 o') a1 bad
           | Some (URefused o' bad) => refuse (reg_set rs a1 o') bad
           | None => refuse rs false
@@ -294,7 +339,7 @@ Definition op_merge_move (rs : regs) (a1 a2 a3 a4 : Z) (e : line) : regs * outli
       | Some orr, Some os =>
           if a1 =? a2 then refuse rs false else
           if follow_ok rs a2 a3 a4 then
-            match obj_merge orr os with
+            match obj_merge orr os e with
             | Some (UDone o' bad) =>
                 match follow_up (reg_set rs a1 o') a2 a3 a4 bad with
                 | Some (rs2, bad2) => done rs2 a1 bad2
@@ -309,7 +354,7 @@ Definition op_merge_move (rs : regs) (a1 a2 a3 a4 : Z) (e : line) : regs * outli
 
 Definition op_reset (rs : regs) (a1 a2 a3 a4 : Z) (e : line) : regs * outline :=
       match reg_get rs a1 with
-      | Some ob => match obj_reset ob with Some (o', bad) => done (reg_set rs a1 o') a1 bad | None => refuse rs false end
+      | Some ob => match obj_reset ob e with Some (o', bad) => done (reg_set rs a1 o') a1 bad | None => refuse rs false end
       | None => refuse rs false
       end.
 
@@ -357,6 +402,15 @@ Definition op_destroy_all (rs : regs) (a1 a2 a3 a4 : Z) (e : line) : regs * outl
       let bad := destroy_all rs in
       ([], ([0; 0; 0; 0; bz bad], [])).
 
+Definition op_result (rs : regs) (a1 a2 a3 a4 : Z) (e : line) : regs * outline :=
+  match reg_get rs a1, reg_get rs a2 with
+  | None, Some ou => match obj_result ou e with
+                     | Some (ob, bad) => done (reg_set rs a1 ob) a1 bad
+                     | None => refuse rs false
+                     end
+  | _, _ => refuse rs false
+  end.
+
 Definition step (rs : regs) (o e : line) : regs * outline :=
   let c := arg o 0 in let a1 := arg o 1 in let a2 := arg o 2 in let a3 := arg o 3 in let a4 := arg o 4 in
   if c =? 1 then op_new rs a1 a2 a3 a4 e else
@@ -372,6 +426,7 @@ Definition step (rs : regs) (o e : line) : regs * outline :=
   if c =? 11 then op_query_copy rs a1 a2 a3 a4 e else
   if c =? 12 then op_trim rs a1 a2 a3 a4 e else
   if c =? 13 then op_chain rs a1 a2 a3 a4 e else
+  if c =? 18 then op_result rs a1 a2 a3 a4 e else
   if c =? 99 then op_destroy_all rs a1 a2 a3 a4 e else
   refuse rs false.
 
